@@ -147,15 +147,28 @@ class ReadMotor(_Base):
         return self._move(v)
 
 
+class HintedReadMotor(ReadMotor):
+    """read-kind motor with ONE hinted field which is not the first key of its reading (see Answer)"""
+    hints = {"fields": ["pos_field"]}
+
+
 KINDS = [LocMotor, PosMotor, ReadMotor]
+
+
+def kinds_for(case):
+    """cases flagged "hinted" use hinted read-kind motors: the position is the hinted field, not the first key"""
+    return [LocMotor, PosMotor, HintedReadMotor] if case.get("hinted") else KINDS
 
 
 class Answer(dict):
     """An answer reporting one position, readable as a Location and as a reading with one field."""
 
-    def __init__(self, pos, k=None):
+    def __init__(self, pos, k=None, hinted=False):
         super().__init__()
         self.k = k
+        if hinted:
+            self["decoy"] = {"value": 12345, "timestamp": 0.0}
+            self["pos_field"] = {"value": pos, "timestamp": 0.0}
         self["value_field"] = {"value": pos, "timestamp": 0.0}
         self["setpoint"] = pos
         self["readback"] = pos
@@ -173,8 +186,9 @@ class Answer(dict):
 
 class RCtx:
     def __init__(self, case):
+        self.case = case
         self.pos = [num_py(p) for p in case["pos"]]
-        self.devs = add_holders([KINDS[k](i, num_py(case["init"][i])) for i, k in enumerate(case["kinds"])], case)
+        self.devs = add_holders([kinds_for(case)[k](i, num_py(case["init"][i])) for i, k in enumerate(case["kinds"])], case)
         self.views = [list(v) for v in case["msgs"]]
         self.msgs = [self.msg_of(v) for v in self.views]
         self.msg_id = {id(m): i for i, m in enumerate(self.msgs)}
@@ -253,7 +267,7 @@ class RCtx:
             return None
         if k >= 50:
             return D.FakeStatus(k)
-        return Answer(self.pos[k], k)
+        return Answer(self.pos[k], k, bool(self.case.get("hinted")))
 
 
 def canon_reply(ans):
